@@ -9,7 +9,7 @@ CONSTANTS
   AllowDup = FALSE
   Modes <- Modes_One
   MaxSys = 2
-  MaxOps = 2
+  MaxOps = 1
   Preds <- Preds_Few
   QueryKinds <- Q_HistEnd
   ConcGrid <- G_None
